@@ -387,7 +387,7 @@ def projects(draw, thorough=False, kind=None, flags=None):
     if wants_casts and not flags['casts']:
         avoided.append('casts')
     prof['casts'] = wants_casts and flags['casts']
-    mode = g.pick(['plain', 'defs', 'defs', 'enrich', 'enrich'])
+    mode = g.pick(['defs', 'enrich', 'plain', 'enrich', 'defs'])     # (hypothesis favours the first entries)
     tbp = g.chance(30)
     # ---------------- tmod: types, parameters, module variables, helpers
     t_funcs_r, t_funcs, t_subs_r, t_subs = [], [], [], []
